@@ -78,6 +78,10 @@ type scriptedReader struct {
 	// another load running on the same link system while this one is in flight
 	overlap func()
 	fired   int
+	// emptyReadAtSplit: exactly at splitAt the reader answers one read with (0, nil) -- legal for an io.Reader (an empty
+	// chunk of a chunked stream, an empty Write into a pipe) and NOT the end of the data
+	emptyReadAtSplit bool
+	emptied          bool
 }
 
 func (r *scriptedReader) Read(p []byte) (int, error) {
@@ -92,6 +96,10 @@ func (r *scriptedReader) Read(p []byte) (int, error) {
 	}
 	if r.pos >= len(r.data) {
 		return 0, io.EOF
+	}
+	if r.emptyReadAtSplit && !r.emptied && r.splitAt > 0 && r.pos == r.splitAt {
+		r.emptied = true
+		return 0, nil
 	}
 	n := r.chunk
 	if n <= 0 { // seeded random chunking
@@ -372,6 +380,7 @@ func ReplayLoadScenario(s LoadScenario, b Block, others []Block, thorough bool, 
 			sr := &scriptedReader{data: cf.delivered, chunk: chunk, errAt: cf.errAt, rng: rng}
 			if len(cf.delivered) > len(b.Bytes) && bytes.HasPrefix(cf.delivered, b.Bytes) {
 				sr.splitAt = len(b.Bytes)
+				sr.emptyReadAtSplit = vr.reify || overlap // (two of the three variants: the third delivers without it)
 			}
 			if overlap {
 				sr.overlap = func() {
